@@ -53,11 +53,13 @@ ASSUMPTIONS = ['supported size family = pv/families.py']
 REQUIRED_COUNTERS = ['trials_checked', 'runs_reproduced',
                      'split_runs_compared', 'calibration_cells',
                      'exact_enumerations', 'failures_observed',
-                     'get_results_checked']
+                     'get_results_checked', 'batch_runs',
+                     'batch_shared_error_model']
 SHARD_TIMEOUT = {'quick': 900, 'thorough': 5400}
 
 DIRS = {'depol': (1 / 3, 1 / 3, 1 / 3), 'biasZ3': (0.125, 0.125, 0.75),
         'skew': (0.5, 0.3, 0.2), 'pureY': (0.0, 1.0, 0.0),
+        'biasZ30': (1 / 62, 1 / 62, 30 / 31),
         'biasX8': (0.8, 0.1, 0.1)}
 
 CAL_CODES = [('Planar2DCode', (2, 2)), ('Planar2DCode', (2, 3)),
@@ -361,6 +363,7 @@ def plan(tier, seed):
     decs = ['MatchingDecoder', 'UnionFindDecoder',
             'BeliefPropagationOSDDecoder']
     cells = []
+    special = []
     for cls, size in CAL_CODES:
         for dname in decs:
             if not allowed(dname, cls):
@@ -385,14 +388,42 @@ def plan(tier, seed):
                               'size': list(size), 'noise': 'biasZ3',
                               'noise_def': None, 'rate': 0.15,
                               'code_def': names[0]})
+    # decoders that may leave the code space (one-sector matcher)
+    for cls, size in (('Planar2DCode', (2, 2)), ('RotatedPlanar2DCode', (2, 3)),
+                      ('Planar2DCode', (2, 3))):
+        for et in ('X', 'Z'):
+            special.append({'decoder': 'MatchingDecoder', 'cls': cls,
+                            'size': list(size), 'noise': 'skew',
+                            'noise_def': None, 'rate': 0.2,
+                            'dec_kw': {'error_type': et}})
     if tier == 'quick':
         rng = np.random.default_rng([seed, 1112])
         keep = rng.choice(len(cells), size=min(len(cells), 40), replace=False)
         cells = [cells[int(i)] for i in sorted(keep)]
-    for c in cells:
+    for c in cells + special:
         per = 1.3 if c['decoder'] != 'BeliefPropagationOSDDecoder' else 1.0
         tasks.append({'cell': c, 'N': N, 'calibrate': True, 'seed': seed,
                       'cost': N * per + 1500})
+    # the real batch layer: ONE error-model object shared by several codes
+    # of equal n (what get_simulations builds from a 'ranges' spec)
+    batches = [
+        ('RotatedPlanar2DCode', [(2, 3), (3, 2)], 'biasZ30', 'XZZX',
+         'MatchingDecoder', 0.2),
+        ('RotatedPlanar2DCode', [(3, 2), (2, 3)], 'biasZ30', 'XZZX',
+         'MatchingDecoder', 0.1),
+        ('RotatedPlanar2DCode', [(3, 2), (2, 3), (2, 2)], 'biasZ3', 'XZZX',
+         'MatchingDecoder', 0.15),
+        ('Planar2DCode', [(2, 3), (3, 2)], 'skew', 'XY',
+         'MatchingDecoder', 0.15),
+        ('RotatedPlanar2DCode', [(2, 4), (4, 2)], 'biasZ30', 'XZZX',
+         'BeliefPropagationOSDDecoder', 0.15),
+    ]
+    for cls, sizes, noise, ndn, dname, rate in batches:
+        tasks.append({'kind': 'batch', 'cls': cls,
+                      'sizes': [list(x) for x in sizes], 'noise': noise,
+                      'noise_def': ndn, 'decoder': dname, 'rate': rate,
+                      'N': 2 * N if tier == 'quick' else N, 'seed': seed,
+                      'cost': N * 3 * len(sizes) + 2000})
     # larger codes: self-consistency + reproducibility only
     big = [('MatchingDecoder', 'Toric2DCode', (4, 5)),
            ('MatchingDecoder', 'Planar2DCode', (5, 5)),
@@ -431,8 +462,92 @@ def plan(tier, seed):
     return tasks
 
 
+def run_batch(task, out):
+    """read_input_dict -> BatchSimulation.run: per-simulation calibration
+    and trial self-consistency, with the library's own object sharing."""
+    import os
+    import tempfile
+    from panqec.simulation import read_input_dict
+    rx, ry, rz = DIRS[task['noise']]
+    spec = {'ranges': {
+        'label': 'pv', 'code': {'name': task['cls'], 'parameters': [
+            {'L_x': s[0], 'L_y': s[1]} for s in task['sizes']]},
+        'error_model': {'name': 'PauliErrorModel', 'parameters': {
+            'r_x': rx, 'r_y': ry, 'r_z': rz,
+            'deformation_name': task['noise_def']}},
+        'decoder': {'name': task['decoder'], 'parameters': {}},
+        'error_rate': [task['rate']]}}
+    mech = f"batch/{task['decoder']}/{task['cls']}"
+    work = os.environ.get('PV_WORK') or tempfile.gettempdir()
+    fd, path = tempfile.mkstemp(prefix='c11-', suffix='.json', dir=work)
+    os.close(fd)
+    os.unlink(path)
+    rec = Recorder()
+    try:
+        with contextlib.redirect_stdout(io.StringIO()):
+            batch = read_input_dict(spec, path, verbose=False,
+                                    save_frequency=10 ** 9)
+            sims = list(batch._simulations)
+            if len({id(s.error_model) for s in sims}) == 1 and len(sims) > 1:
+                out.count('batch_shared_error_model')
+            for sim in sims:
+                sim.rng = np.random.default_rng([task['seed'], 1113])
+            batch.run(task['N'])
+        # trials are interleaved over simulations in list order
+        S = len(sims)
+        orcs = [CodeOracle(sim.code) for sim in sims]
+        if len(rec.shots) == S * task['N']:
+            badn = 0
+            for i, sh in enumerate(rec.shots):
+                j = i % S
+                d = {'k': 'batch-trial', 'cls': task['cls'],
+                     'size': list(sims[j].code.size)}
+                if not check_shot(out, orcs[j], sh, d, mech):
+                    badn += 1
+                    if badn > 3:
+                        break
+        else:
+            out.violation(f'{mech}/trial-count',
+                          f'{len(rec.shots)} trials executed for {S} '
+                          f"simulations x {task['N']}", {'cls': task['cls']})
+        for sim in sims:
+            desc = {'k': 'batch', 'cls': task['cls'],
+                    'size': list(sim.code.size), 'noise': task['noise'],
+                    'noise_def': task['noise_def'],
+                    'decoder': task['decoder'], 'rate': task['rate'],
+                    'sizes_in_batch': task['sizes']}
+            g = sim.get_results()
+            if g['n_runs'] != task['N']:
+                out.violation(f'{mech}/n_runs', f"n_runs={g['n_runs']}",
+                              desc)
+                continue
+            cell = {'decoder': task['decoder'], 'cls': task['cls'],
+                    'size': list(sim.code.size), 'noise': task['noise'],
+                    'noise_def': task['noise_def'], 'rate': task['rate']}
+            calibrate(out, cell, fam.build(task['cls'],
+                                           tuple(sim.code.size)),
+                      desc, mech, int(g['n_fail']), int(g['n_runs']))
+        out.count('batch_runs')
+    except Exception as e:
+        where = panqec_frame(e)
+        if where is None:
+            raise
+        out.violation(f'{mech}/raises-{type(e).__name__}',
+                      f'{type(e).__name__}: {e} at {where}',
+                      {k: task[k] for k in ('cls', 'sizes', 'noise',
+                                            'noise_def', 'decoder')})
+    finally:
+        rec.close()
+        for f in (path, path + '.gz'):
+            if os.path.exists(f):
+                os.unlink(f)
+
+
 def run_task(task, out):
-    run_cell(task, out)
+    if task.get('kind') == 'batch':
+        run_batch(task, out)
+    else:
+        run_cell(task, out)
 
 
 def finalize(run, tier, seed):
